@@ -350,7 +350,7 @@ def gen_word(rng):
         return w
 
 
-MACRO_CHARS = "abcxyz019 \t\t  $*~'\"\\|&;<>!=,.:-_@#%^?"  # (no backtick: a PAIR of them anywhere on the line is the regex-glob syntax)
+MACRO_CHARS = "abcxyz019 \t\t  $*~'\"\\|&;!=,.:-_@#%^?"  # (no backtick: a PAIR of them anywhere on the line is the regex-glob syntax)
 
 
 def gen_macro_text(rng, closer, lb=False):
@@ -853,18 +853,18 @@ def run_command(ctx, ses, stream, idx, atoms, bang, cmd, form, note=None, sep=No
                 key = "bare-line-splitlines-breaks-literal" if source_has_raw(src, LB) else "bare-line-continuation-inside-literal"
         if key is None and form == "bare" and any(a["k"] == "word" and re.match(r"@\w+#", uncodes(a["t"])) for a in atoms) and rerun("![", " "):
             key = "bare-line-word-at-name-hash"
-        if key is None and form == "bare" and bang is not None and re.search(r"(\s;|&&|\|\|)$", bang.strip()) and rerun("![", " "):
-            key = "bare-line-macro-tail-end-token"
+        if key is None and form == "bare" and any(re.search(r"&&|\|\||\s;$", t.strip()) for t in macro_texts(atoms, bang)) and rerun("![", " "):
+            key = "bare-line-macro-text-chain-token"
         if key is None and ws_errortoken(src) and rerun(form, " "):
             # the same command with spaces for the tabs delivers what is wanted, and the tokenizer did turn a tab into an ERRORTOKEN
             key = "whitespace-run-before-untokenizable-char"
-        if key is None and argv is not None and any("Unexpected token: TokenInfo(" in x for x in argv) and lexer_unexpected(src):
+        if key is None and (observed.get("exception") or (argv is not None and any("Unexpected token: TokenInfo(" in x for x in argv))) and lexer_unexpected(src):
             key = "word-with-nonidentifier-wordchar-garbled"
         ctx.spec_failure(case, observed, why, key)
         return key
 
     outside_model = ("bare-line-splitlines-breaks-literal", "bare-line-continuation-inside-literal", "whitespace-run-before-untokenizable-char",
-                     "bare-line-macro-tail-end-token", "bare-line-word-at-name-hash",
+                     "bare-line-macro-text-chain-token", "bare-line-word-at-name-hash",
                      "word-with-nonidentifier-wordchar-garbled")
     if res[0] != "ok":
         key = fail({"exception": res[1], "message": res[2]}, "a well-formed command was not run: its arguments never arrived")
